@@ -127,6 +127,8 @@ Mixed(n, a, b) == [i \in 1..n |-> (a * i * i + b * i + a + b) % 47]
 MixedTapes(n) == { Mixed(n + 4, ab[1], ab[2]) : ab \in (IF Tier = "quick" THEN {<<3, 7>>, <<5, 11>>, <<17, 2>>} ELSE {1, 3, 5, 7, 11, 13, 17, 19, 23} \X {2, 7, 9, 14, 22, 31}) }
 Tapes(alts) == Tapes1(alts) \cup MixedTapes(Len(alts))
 
+RECURSIVE RepStrG(_, _)
+RepStrG(s, n) == IF n = 0 THEN "" ELSE s \o RepStrG(s, n - 1)
 (* C20: a corpus of whole programs with standard-input contents: succeeding, failing at run time after output, reading input *)
 CliCorpus(z) == {
   [tree |-> << <<Say(S("hello")), Say(B("plus", N(1), N(2)))>> >>, inp |-> <<>>],
@@ -144,6 +146,10 @@ CliCorpus(z) == {
   [tree |-> << <<Say(S("name?")), SListen(0, X), Say(B("plus", S("hello "), X))>> >>, inp |-> <<"world" \o NL>>],
   [tree |-> << <<Say(N(1)), SListen(0, X), Say(N(2)), SListen(0, Y), Say(B("plus", X, Y))>> >>, inp |-> <<"a" \o NL, "b">>],
   [tree |-> << <<Say(S("ask")), SListen(0, X), Say(X), SListen(0, Y), Say(B("minus", Y, X))>> >>, inp |-> <<"only" \o NL>>],
+  \* one `say` whose text holds a line break followed by more than a kilobyte (the line break is made by a cast: the model leaves
+  \* the character undetermined, the binary must still print what the library prints); three mentions in a row on one line
+  [tree |-> << <<Put(N(10), "x"), SMut(0, "cast", X, ENone, ENone), Say(B("plus", B("plus", S("header"), X), S(RepStrG("0123456789abcdef", 100))))>> >>, inp |-> <<>>],
+  [tree |-> << <<Put(N(1), "x"), Put(B("plus", B("plus", X, X), X), "y"), Say(Y), Say(B("times", Y, Y))>> >>, inp |-> <<>>],
   [tree |-> << <<SPStr(0, X, "some text  "), Say(X), SMut(0, "cut", X, ENone, S(" ")), Say(X), Say(Idx(X, N(1)))>> >>, inp |-> <<>>]
 }
 CliCases(z) == { LET nm == Naming(0) r == Render(<<>>, nm, cc.tree) fin == RunAll(Init0(cc.tree, cc.inp, -1, 0)) IN
@@ -169,6 +175,12 @@ E2ETapes == {<<>>} \cup { Mixed(64, ab[1], ab[2]) : ab \in {<<3, 7>>, <<5, 11>>,
 Noisy == [i \in 1..64 |-> 17]          \* every statement closed by a comment that spans three line breaks (17 % 9 = 8)
 E2ETapesFew == {<<>>, Mixed(64, 5, 11)}
 (* picking a case is cheap and sequential; expanding it (render, run, lint) is a separate step so that all workers share it *)
+(* a family tree that no text denotes would be dropped silently by the ProgramOK filter: refuse to start instead *)
+ASSUME Family # "cf" \/ \A p \in CTPrograms(0) : ProgramOK(p) \/ (PrintT(<<"INEXPRESSIBLE", p>>) /\ FALSE)
+ASSUME Family # "lint" \/ \A p \in LTPrograms(0) \cup PRPrograms(0) : ProgramOK(p) \/ (PrintT(<<"INEXPRESSIBLE", p>>) /\ FALSE)
+LoadCT == /\ c.k = "init" /\ Family = "cf"
+          /\ \E t \in { p \in CTPrograms(0) : ProgramOK(p) }, tp \in E2ETapes \cup {Noisy}, off \in {0, 12} :
+                c' = [k |-> "e2epick", tree |-> t, inp |-> <<>>, tape |-> tp, off |-> off]
 LoadLint == /\ c.k = "init" /\ Family = "lint"
             /\ \E t \in { p \in LTPrograms(0) \cup PRPrograms(0) : ProgramOK(p) }, tp \in E2ETapes \cup {Noisy}, off \in {0, 12, 24} :
                   c' = [k |-> "e2epick", tree |-> t, inp |-> <<>>, tape |-> tp, off |-> off]
@@ -201,7 +213,7 @@ LoadOpen == /\ c.k = "init" /\ Family = "poetic"
 Init == c = [k |-> "init"]
 LoadFaults == /\ c.k = "init" /\ Family = "fault"
               /\ c' \in FaultCases(0)
-Load == /\ c.k = "init" /\ Family \notin {"fault", "cli", "e2e", "lint"}
+Load == /\ c.k = "init" /\ Family \notin {"fault", "cli", "e2e", "lint", "cf"}
         /\ \E t \in Trees(0), off \in NamingOffsets : c' = [k |-> "tree", tree |-> t, off |-> off]
 Vary == /\ c.k = "tree"
         /\ LET nm == Naming(c.off)
@@ -211,7 +223,7 @@ Vary == /\ c.k = "tree"
                 c' = [k |-> "text", tree |-> c.tree, naming |-> nm, tape |-> tp, text |-> r.text, lines |-> r.lines]
 Strip == /\ c.k = "text" /\ c.tape = <<>>          \* the canonical rendering also without its trailing line ends
          /\ c' = [c EXCEPT !.k = "stripped", !.text = StripTrailingNl(c.text)]
-Next == Load \/ LoadFaults \/ LoadOpen \/ LoadCli \/ LoadE2E \/ LoadLint \/ ExpandE2E \/ Vary \/ Strip
+Next == Load \/ LoadFaults \/ LoadOpen \/ LoadCli \/ LoadE2E \/ LoadLint \/ LoadCT \/ ExpandE2E \/ Vary \/ Strip
 
 PoeticDigits(t) ==      \* the digits the first statement's poetic literal spells (C11), when it has one
   LET s == t[1][1]
